@@ -263,6 +263,12 @@ def make(I):
         shape = tuple(shape) if not isinstance(shape, ShapeTag) else shape
         return Arr(shape, lambda idx: I.call(fn, list(idx), {}), dtype)
 
+    def witness(I, n, k):
+        """instantiate every universally quantified fact over indices 0 <= j < n known so far (e.g. those of an array minimum)
+        at the index k"""
+        N.add_witness(I, n, k)
+        return True
+
     def arr_at(I, a, *idx):
         if isinstance(a, Arr):
             if a.shape == ():
@@ -303,7 +309,7 @@ def make(I):
               fact=F('fact', fact), assume=F('assume', assume), implies=F('implies', implies), ite=F('ite', ite),
               oblige=F('oblige', oblige), event=F('event', event), is_symbolic=F('is_symbolic', is_symbolic),
               unsupported=F('unsupported', unsupported), uf_real=F('uf_real', uf_real), uf=F('uf', uf), split_first_line=F('split_first_line', split_first_line), uf_text=F('uf_text', uf_text), stub=F('stub', stub), is_text=F('is_text', is_text), exact_number_text=F('exact_number_text', exact_number_text), piece_value=F('piece_value', piece_value), text_equal=F('text_equal', text_equal), abstract_path_vertices=F('abstract_path_vertices', abstract_path_vertices), abstract_path_codes=F('abstract_path_codes', abstract_path_codes), abstract_outline_vertices=F('abstract_outline_vertices', abstract_outline_vertices), abstract_outline_codes=F('abstract_outline_codes', abstract_outline_codes), is_selection=F('is_selection', is_selection), selection_parts=F('selection_parts', selection_parts), is_nonfinite=F('is_nonfinite', is_nonfinite), lemma=F('lemma', lemma), general=F('general', general), arr_like=F('arr_like', arr_like), is_bool_scalar=F('is_bool_scalar', is_bool_scalar), is_bool_array=F('is_bool_array', is_bool_array), dtype_of=F('dtype_of', dtype_of), uf_bool=F('uf_bool', uf_bool),
-              arr_from_fn=F('arr_from_fn', arr_from_fn), arr_at=F('arr_at', arr_at), is_array=F('is_array', is_array),
+              arr_from_fn=F('arr_from_fn', arr_from_fn), arr_at=F('arr_at', arr_at), witness=F('witness', witness), is_array=F('is_array', is_array),
               cos=F('cos', N.np_cos), sin=F('sin', N.np_sin), sqrt=F('sqrt', lambda I, x: B.sqrt_(I, x)), PI=N.PI,
               deepcopy=F('deepcopy', lambda I, v: I.ext_modules and __import__('pyvc.stdlib_models', fromlist=['x']).deepcopy(I, v)),
               rope_fmt=F('rope_fmt', rope_fmt), ghost=F('ghost', ghost), fs_initially=F('fs_initially', fs_initially), shape_of=F('shape_of', shape_of),
